@@ -1584,6 +1584,8 @@ class Engine:
             # Class.attr : static method reference or class attribute
             fi = self.prog.find_method(obj.t, attr)
             if fi is not None:
+                if fi.kind == "classmethod":       # Class.method(...): the class itself is the first argument
+                    return [(st, Val(FUNC, ("bound", fi, obj)))]
                 return [(st, Val(FUNC, ("static", fi)))]
             ca = self.prog.find_class_attr(obj.t, attr)
             if ca is not None:
@@ -2448,7 +2450,9 @@ class Engine:
         return v
 
     def call_function(self, fi: FuncInfo, pre_args, e, st):
-        con = self.reg.get(fi.qualname)
+        # (a ghost lemma may name which of a function's contracts -- one per argument shape -- its calls go through)
+        variant = (getattr(self.cur, "call_variants", None) or {}).get(fi.qualname, fi.qualname)
+        con = self.reg.get(variant)
         if con is None:
             raise OutsideSubset(f"callee {fi.qualname} has no contract (line {e.lineno})")
         out = []
@@ -2523,8 +2527,17 @@ class Engine:
                 raise OutsideSubset(f"call of impure {con.name} inside a quantified expression")
             st.heap = self.havoc(st, frame, h0)
         rty = con.ret if con.ret is not None else NONE
-        res = self.fresh_val(rty, f"r_{con.name.split('.')[-1]}", st if rty.kind != "opt" else st, nonnull=False) \
-            if rty.kind != "none" else VNONE
+        ret_dict = getattr(con, "ret_dict", None)
+        if ret_dict:
+            # a dictionary display with constant string keys: one fresh value per key (nested displays allowed)
+            def fresh_dict(spec, prefix):
+                return Val(Ty("strdict"), {k: (fresh_dict(t, prefix + "_" + k) if isinstance(t, dict)
+                                                 else self.fresh_val(t, prefix + "_" + k, st, nonnull=False))
+                                            for k, t in spec.items()})
+            res = fresh_dict(ret_dict, f"r_{con.name.split('.')[-1]}")
+        else:
+            res = self.fresh_val(rty, f"r_{con.name.split('.')[-1]}", st if rty.kind != "opt" else st, nonnull=False) \
+                if rty.kind != "none" else VNONE
         if getattr(con, "borrowed", False) and res.ty.kind == "list":
             res.aux = "borrowed"
         c1 = Ctx(self, h0, st.heap, bound, res, extra=extra)
